@@ -69,7 +69,7 @@ def strategy_(g):
             edges.append({"t": "odo", "i": i, "j": j, "z": g.pose(k, s=s), "off": None, "info": g.sym_matrix(R.CDIM[k], kind=g.choice(INFO_KINDS))})
     poses_b = [g.pose(k, s=s) for _ in range(npose)]
     lms_b = [g.pose(pk, s=s) for _ in range(nlm)]
-    return {"shape": "graph", "k": k, "poses": poses, "lms": lms, "edges": edges, "ids": g.ids(npose + nlm), "poses_b": poses_b, "lms_b": lms_b}
+    return {"shape": "graph", "k": k, "poses": poses, "lms": lms, "edges": edges, "ids": g.ids(npose + nlm), "poses_b": poses_b, "lms_b": lms_b, "debug_log": g.choice([False, False, True])}
 
 
 def strategy(tier):
@@ -153,6 +153,13 @@ def check(case, ctx):
     if case["shape"] == "huge":
         return HG.check_chi2(case, ctx)
     if case["shape"] == "graph":
+        if case.get("debug_log"):
+            # the application has switched the library's loggers to DEBUG: numbers must not depend on that
+            from ..graphcheck import debug_logging
+
+            ctx.event("library-loggers-at-DEBUG")
+            with debug_logging():
+                return _check_graph(case, ctx)
         return _check_graph(case, ctx)
     ek = case["ek"]
     nontriv, S_ = E.classify_edge(case, ctx)
